@@ -123,7 +123,7 @@ PROPS['C09'] = {
     'level': 'other',
     'quick_configs': ['default'],
     'thorough_configs': ALL,
-    'controls': ['R9.1', 'R9.2', 'R9.3', 'R9.4', 'R9.5', 'R9.6', 'R9.7'],
+    'controls': ['R9.1', 'R9.2', 'R9.3', 'R9.4', 'R9.5', 'R9.6', 'R9.7', 'R9.8'],
     'floors': {'default': {'R9.1': 250, 'R9.6': 14}},
     'rule_text': 'one obligation per call site in fatfs whose result type carries a device-capable error and whose '
                  'callee may reach the device (mono call graph), per closure parameter of such a type, and per RefCell '
@@ -469,12 +469,12 @@ PROPS['C10'] = {
 }
 
 PROPS['C03'] = {
-    'modules': ['c03', ('c05', ['A5.8'])],
+    'modules': ['c03', ('c05', ['A5.8']), ('c10', ['R10.4']), ('c15', ['N7']), ('c04', ['K5'])],
     'level': 'other',
     'quick_configs': ['default'],
     'thorough_configs': ALL,
     'controls': [],
-    'floors': {'default': {'R3.1': 1, 'R3.2': 1, 'R3.3': 1, 'R3.7': 1, 'R3.8': 1, 'R3.9': 1}},
+    'floors': {'default': {'R3.1': 1, 'R3.2': 1, 'R3.3': 1, 'R3.7': 1, 'R3.8': 1, 'R3.9': 1, 'R10.4.hint': 1, 'N7': 1}},
     'rule_text': 'obligations: zero-fill of directory clusters (length, guard, position, the two callers\' arguments), '
                  'dot entries, release-on-failure of the unpublished allocation, `..` rewrite on move, first-cluster reset '
                  'at offset 0, the contiguous-run counter of the free-slot search, the truncate order, plus the reclaim '
@@ -500,7 +500,7 @@ PROPS['C04'] = {
     'quick_configs': ['default'],
     'thorough_configs': ALL,
     'controls': ['P3'],
-    'floors': {'default': {'K1': 10, 'K3': 2, 'K4': 1, 'FT1': 1}},
+    'floors': {'default': {'K1': 10, 'K3': 2, 'K4': 1, 'FT1': 1, 'K5': 5}},
     'rule_text': 'obligations: 5 on-disk layouts x {encoder, decoder} compared field by field (78 specification fields) '
                  'with the Microsoft FAT specification table; entry-position and extent provenance; the FAT-width table; '
                  'the write-back must-calls shared with C14',
@@ -523,12 +523,12 @@ PROPS['C04'] = {
 }
 
 PROPS['C11'] = {
-    'modules': ['c11', ('c10', ['R10.4']), ('c03', ['R3.8']), ('c20', ['W1', 'W4'])],
+    'modules': ['c11', ('c10', ['R10.4', 'R10.2']), ('c03', ['R3.8']), ('c20', ['W1', 'W4'])],
     'level': 'other',
     'quick_configs': ['default'],
     'thorough_configs': ALL,
     'controls': ['R11.1', 'R11.2'],
-    'floors': {'default': {'R11.1': 6, 'R11.2.adapter': 1, 'R11.3': 4, 'R10.4.hint': 1, 'R3.8': 1}},
+    'floors': {'default': {'R11.1': 6, 'R11.2.adapter': 1, 'R11.3': 4, 'R10.4.hint': 1, 'R3.8': 1, 'R10.2': 1}},
     'rule_text': 'one obligation per raw device-write site (closed set; each must be dominated by a successful seek whose '
                  'offset provenance is in an allowed class), per clipping site (File::write, DiskSlice read/write/seek), '
                  'plus the allocator bounds (hint clamp, padding entries; C10 rules) and the truncate order (C03 rule)',
